@@ -27,7 +27,7 @@ SPEC = {
             "published through a SINT binding so that the publish phase can overflow) x 0-3 logging IoDrivers with "
             "scripted read/write failures x optional scripted RetainStore x safe-state maps over all address shapes "
             "(X/B/W/D/L, overlapping, %I/%M areas, hierarchical, wildcard, ill-typed values) x fault policy x watchdog "
-            "action x a 10-20 step history of cycle / clock advance / watchdog_timeout / simulation_fault / policy, "
+            "action x a 12-24 step history of cycle / clock advance / watchdog_timeout / simulation_fault / policy, "
             "watchdog and safe-state updates / queued debug I/O writes (also ill-typed) / restart warm|cold / "
             "clear_fault; cases 0-3 are the hand-written corpus (witnesses of the repaired defect). "
             "non-trivial = a fault was raised and at least one later cycle request was refused; "
@@ -72,7 +72,7 @@ MANIFEST = {
                   "fault histories on the real Runtime (compiled from ST source by the real compiler) and on the model and "
                   "compares every observable after every operation.",
     "level_note": "Trusted: Lean kernel + propext/Quot.sound/Classical.choice; the hand-written model (validated only by "
-                  "the differential run, whose generator bounds what it sees: histories of 10-20 operations, <= 3 drivers, "
+                  "the differential run, whose generator bounds what it sees: histories of 12-24 operations, <= 3 drivers, "
                   "<= 4 programs). Only tested, not proved: the concrete statement language / scheduler / coercions used to "
                   "replay cases (the theorems do not depend on them). Not modelled: ResourceRunner's thread loop (it stops "
                   "calling execute_cycle after the first error unless the policy is restart), forced values, the health "
